@@ -47,7 +47,12 @@ def base_strategy():
                     p["name"] = f"q{methods[-1]['id']}_{j}"
         corpus = [["inst", n] for n in KN] + [["int", 1], ["list", [["int", 1]]], ["str", "s"]]
         env = H.build(HIER)
-        probes = draw(G.calls_for(methods, corpus, [], fitting=G.fitting_fn(env, corpus), n_calls=(3, 5)))
+        fit = G.fitting_fn(env, corpus)
+        probes = draw(G.calls_for(methods, corpus, [], fitting=fit, n_calls=(3, 5)))
+        # one probe is aimed at the LAST method (the one the 'rebuild' scenario registers after first use), so that a
+        # table that ignores it is visible
+        last = methods[-1]
+        probes.insert(1, {"args": [draw(st.sampled_from(fit(p["ann"]) or corpus)) for p in last["pos"]], "kw": {}, "script": []})
         return {"methods": methods, "probes": probes}
 
     return _base()
@@ -463,6 +468,9 @@ class Check:
             # the multi-step writes of a resolution sit at the end of the operation: enumerate that part densely
             t += [{"kind": "enum", "seed": seed * 1000 + 800 + i, "sets": 1, "stride": 1, "offset": 0, "tail": 0.22}
                   for i in range(4)]
+            # ... and the change of the method set itself sits at the very start of a re-registration
+            t += [{"kind": "enum", "seed": seed * 1000 + 850 + i, "sets": 3, "stride": 1, "offset": 0, "head": 160,
+                   "scenarios": ["rebuild"]} for i in range(4)]
             return t
         t = [{"kind": "rand", "seed": seed * 1000 + i, "n": 3000} for i in range(8)]
         t += [{"kind": "enum", "seed": seed * 1000 + 700 + i, "sets": 1, "stride": 1, "offset": 0} for i in range(8)]
@@ -489,14 +497,16 @@ class Check:
         collect()
         specs = []
         for b in bases[: task["sets"]]:
-            for sc in ("first", "rebuild", "miss"):
+            for sc in task.get("scenarios") or ("first", "rebuild", "miss"):
                 for entry in ("dispatch", "ovld"):
                     probe = dict(b, kind="inject", scenario=sc, entry=entry, frac=0.0)
                     total = count_lines(probe)
-                    start = 1 + task["offset"]
+                    start, stop = 1 + task["offset"], total
                     if task.get("tail"):
                         start = max(1, int(total * (1 - task["tail"])))
-                    for k in range(start, total + 1, task["stride"]):
+                    if task.get("head"):
+                        stop = min(total, task["head"])
+                    for k in range(start, stop + 1, task["stride"]):
                         specs.append(dict(probe, k=k))
         R.run_enumerated(st, specs, run_case, sigs)
         st.extra["enumerated_line_points"] = len(specs)
